@@ -38,7 +38,7 @@ TNext == /\ l <= NT /\ l' = l + 1 /\ lastOp' = lastOp
          /\ IF Ev.op = "reset" THEN elems' = <<>> /\ cap' = Ev.cap /\ skipping' = FALSE /\ nbad' = nbad
             ELSE IF skipping THEN UNCHANGED <<elems, cap, skipping, nbad>>
             ELSE IF Ev.op \in {"crash", "timeout"} THEN
-                 /\ PrintT("REJECT " \o ToJson([l |-> l, why |-> {Ev.op}, ev |-> Ev, exp |-> "no action admits this event"]))
+                 /\ PrintT("REJECT " \o ToJson([l |-> l, why |-> {Ev.op, "result"}, ev |-> Ev, exp |-> "no action admits this event"]))
                  /\ skipping' = TRUE /\ nbad' = nbad + 1 /\ UNCHANGED <<elems, cap>>
             ELSE IF Why \cap (Owned \cup {"result", "state", "enomem"}) = {} THEN
                  /\ UNCHANGED <<skipping, nbad>>
